@@ -11,9 +11,10 @@ NOT_YET = "no check built yet (design in DESIGN.md section 4)"
 def main():
     md = os.path.join(ROOT, "checks", "manifest")
     CHECKS = {}
+    enabled = set(open(os.path.join(md, "ENABLED")).read().split())   # maintained by hand: checks reviewed and quiet on /repo
     for p in ALL:
         f = os.path.join(md, p + ".json")
-        if os.path.exists(f) and os.path.exists(os.path.join(ROOT, "checks", p.lower() + ".py")):
+        if p in enabled and os.path.exists(f) and os.path.exists(os.path.join(ROOT, "checks", p.lower() + ".py")):
             CHECKS[p] = json.load(open(f))
     NA = {}
     if os.path.exists(os.path.join(md, "NA.json")):
